@@ -2667,20 +2667,37 @@ func (p *Parser) parseDimension() (*Dimension, error) {
 func (p *Parser) parseFill() (FillOption, interface{}, error) {
 	// Parse the expression first.
 	tok, _, lit := p.ScanIgnoreWhitespace()
-	p.Unscan()
-	if tok != IDENT || strings.ToLower(lit) != "fill" {
-		return NullFill, nil, nil
-	}
+	var fill *Call
+	if tok == FILL {
+		// the scanner knows fill as a keyword: read "( option )" here
+		if err := p.parseTokens([]Token{LPAREN}); err != nil {
+			return NullFill, nil, err
+		}
+		arg, err := p.ParseExpr()
+		if err != nil {
+			return NullFill, nil, err
+		}
+		if err := p.parseTokens([]Token{RPAREN}); err != nil {
+			return NullFill, nil, errors.New("fill requires an argument, e.g.: 0, null, none, previous, linear")
+		}
+		fill = &Call{Name: "fill", Args: []Expr{arg}}
+	} else {
+		p.Unscan()
+		if tok != IDENT || strings.ToLower(lit) != "fill" {
+			return NullFill, nil, nil
+		}
 
-	expr, err := p.ParseExpr()
-	if err != nil {
-		return NullFill, nil, err
-	}
-	fill, ok := expr.(*Call)
-	if !ok {
-		return NullFill, nil, errors.New("fill must be a function call")
-	} else if len(fill.Args) != 1 {
-		return NullFill, nil, errors.New("fill requires an argument, e.g.: 0, null, none, previous, linear")
+		expr, err := p.ParseExpr()
+		if err != nil {
+			return NullFill, nil, err
+		}
+		var ok bool
+		fill, ok = expr.(*Call)
+		if !ok {
+			return NullFill, nil, errors.New("fill must be a function call")
+		} else if len(fill.Args) != 1 {
+			return NullFill, nil, errors.New("fill requires an argument, e.g.: 0, null, none, previous, linear")
+		}
 	}
 	switch fill.Args[0].String() {
 	case "null":
